@@ -81,9 +81,11 @@ def xread (w : XWorld) (h : Nat) (length : Int) : XWorld × XRes :=
     | some x =>
       if length < 0 then (w, .fail)
       else
-        let n : Int := if length = 0 ∨ (a.posn : Int) + length > x.len then (x.len : Int) - a.posn else length
-        if n < 0 then (w, .fail)       -- a negative count handed to `fread`
-        else match diskRead (w.file x.file) (x.off + a.posn) n.toNat with
+        let n0 : Int := if length = 0 ∨ (a.posn : Int) + length > x.len then (x.len : Int) - a.posn else length
+        -- /repo ffb2786: at or beyond the end of the element there is nothing to read (0 bytes); before that a negative
+        -- count was handed to `fread` and the call failed (finding `ext-read-past-end-fail`)
+        let n : Int := if n0 < 0 then 0 else n0
+        match diskRead (w.file x.file) (x.off + a.posn) n.toNat with
           | none => (w, .fail)
           | some bs => (w.setAcc h { a with posn := a.posn + n.toNat }, .data bs)
 
